@@ -20,7 +20,10 @@ Record case := mkCase {
   c_kind : bkind;
   c_ballots : list mballot;
   c_ops : list (mpop nat);            (* indices into c_ballots *)
-  c_obs : list obs
+  c_obs : list obs;
+  c_direct : bool                     (* the case builds FrozenApprovalBallots directly: which sequences are == is then the
+                                         implementation's business (code 14, correspondence); the property is checked through
+                                         its own == (codes 5 and 11) *)
 }.
 
 Definition dummy : mballot := mkB [] 0 0.
@@ -73,6 +76,7 @@ Definition frozen_eqb (f1 f2 : list (dict * nat * nat)) : bool :=
    oracle: 1 num_ballots   2 len   3 multiplicity   4 == of frozen ballots vs same content
            5 equal frozen ballots with different hashes   6 frozen() lost content / name / meta
            7 observables differ between hash seeds
+           11 multiplicity(f_i) differs from the number of inserted ballots that == f_i (the implementation's own ==)
    model:  8 content of a mutable ballot   9 Counter entries (keys, order, counts)   10 frozen items *)
 Definition check_obs (c : case) (o : obs) : list nat :=
   let k := c_kind c in
@@ -84,7 +88,7 @@ Definition check_obs (c : case) (o : obs) : list nat :=
   flag (Nat.eqb (o_num o) (length h)) 1
   ++ flag (Nat.eqb (o_len o) (length (dedupb scb [] h))) 2
   ++ flag (list_eqb Nat.eqb (o_mult o) (map (fun b => countb (scb b) h) bs)) 3
-  ++ flag (list_eqb blist_eqb (o_eq o) (map (fun a => map (fun b => scb a b) bs) bs)) 4
+  ++ flag (list_eqb blist_eqb (o_eq o) (map (fun a => map (fun b => scb a b) bs) bs)) (if c_direct c then 14 else 4)
   ++ flag (list_eqb (fun r1 r2 => forallb (fun p => implb (fst p) (snd p)) (combine r1 r2)) (o_eq o) (o_heq o)
            && Nat.eqb (length (o_heq o)) (length bs)) 5
   ++ flag (Nat.eqb (length (o_frozen o)) (length bs) && Nat.eqb (length (o_iter o)) (length bs)
@@ -92,6 +96,10 @@ Definition check_obs (c : case) (o : obs) : list nat :=
                          (match k with KApp => dset_eqb fi it | _ => dlist_eqb fi it end)
                          && Nat.eqb fn (b_name b) && Nat.eqb fm (b_meta b))
                       (combine (combine bs (o_iter o)) (o_frozen o))) 6
+  (* counting by the implementation's OWN ==: multiplicity(f_i) = number of inserted ballots j with f_i == f_j *)
+  ++ flag (list_eqb Nat.eqb (o_mult o)
+             (map (fun row => countb (fun j => nth j row false) (history (c_ops c))) (o_eq o))
+           || negb (Nat.eqb (length (o_eq o)) (length bs))) 11
   ++ flag (forallb (fun t => let '(b, it) := t in
                       match k with KApp => dset_eqb it (content b) | _ => dlist_eqb it (content b) end)
                    (combine bs (o_iter o))) 8
